@@ -65,8 +65,18 @@ def run_rev3(ctx, p):
         tw = sm.Twist3.Revolute(a.tolist() if p.get('aslist') else a, q)
         k = 180 / PI if units == 'deg' else 1.0
         arg = [t * k for t in ths] if len(ths) > 1 else ths[0] * k
+        # the angle(s) as the object a caller may hold: NumPy scalar, 0-d array, array / tuple of angles
+        thform = p.get('thform')
+        if thform:
+            sig['thform'] = thform
+            arg = {'np.float64': np.float64, '0d': np.array, 'ndarray': np.array, 'tuple': tuple, 'readonly': lambda v: gen.layout(np.array(v), 'readonly'),
+                   'strided': lambda v: gen.layout(np.array(v), 'strided')}[thform](arg)
         X = tw.exp(arg, units=units) if units == 'deg' else tw.exp(arg)
     except Exception as e:
+        if p.get('thform') == '0d' and isinstance(e, (TypeError, ValueError)):
+            ctx.ood('motion')       # a 0-d array is refused as an angle in some call forms: not a value, so nothing to compare
+            ctx.cell('rev3', '0-d theta refused', units)
+            return
         ctx.bad('motion', dict(sig, kind='raised', exc=type(e).__name__, vec=len(ths) > 1, units=units), 'Revolute(%s, %s).exp(%s, %s) raised %r' % (a, q, ths, units, e))
         return
     if type(X) is not sm.SE3 or len(X) != len(ths):
@@ -276,6 +286,11 @@ def run_multi3(ctx, p):
             d = max(md(got.data[i], want[i]) for i in range(n)) if ok else math.inf
             ctx.judge('motion', d <= TOL * sc, dict(sig, kind='exp_of_sequence_wrong', call=name),
                       lambda: '%s on %d unit twists differs from the per-value exponential by %.3g (k=%r thetas=%s kinds=%s)' % (name, n, d, k, ths, kinds))
+        if n > 1:
+            poles = T.pole()
+            okq = len(poles) == n and all(float(np.linalg.norm(np.cross(np.asarray(pl, dtype=np.float64) - q, a / np.linalg.norm(a)))) <= TOL * max(1.0, float(np.max(np.abs(q))))
+                                          for pl, kd, a, q in zip(poles, kinds, axes, pts) if kd == 'R')
+            ctx.judge('accessors', okq, dict(sig, kind='per_value_pole_off_axis'), lambda: 'pole() of %d twists (kinds %s) = %s; axes through %s along %s' % (n, kinds, core.short(poles, 300), pts, axes))
         pit, th, pr = T.pitch(), T.theta(), T.isprismatic
         if n > 1:
             okp = len(pit) == n and all(abs(float(x)) <= 1e-9 * sc for x, kd in zip(pit, kinds) if kd == 'R')
@@ -337,6 +352,8 @@ def run(ctx):
         p = dict(a=a, q=q, thetas=[thetas(rng) for _ in range(nv)], units=['rad', 'deg'][rng.integers(2)],
                  lam=[0.0, float(rng.uniform(-5, 5)), float(gen.sign(rng) * gen.logu(rng, 1e-3, 1e3))], off=gen.vec(rng, 3, 1e-3, 1e3),
                  aslist=bool(rng.integers(2)))
+        if rng.random() < 0.4:
+            p['thform'] = (['np.float64', '0d', '0d'] if nv == 1 else ['ndarray', 'tuple', 'readonly', 'strided'])[rng.integers(3 if nv == 1 else 4)]
         drive(RUNNERS, ctx, 'rev3', p)
         if ctx.ncases % 499 == 1:
             ctx.sample(dict(case='rev3', **p), limit=4)
